@@ -236,6 +236,7 @@ fn snapshot<K: HKey>(cas: &Cas<K>, u: &Universe<K>, root: &Path, names: &alpha::
         "idx": idx.map_or(json!([]), |v| json!(v)), "has_idx": verif::index_snapshot(cas.as_arc()).is_some(),
         "intents": intents.clone().map_or(json!([]), |v| json!(v)), "has_intents": intents.is_some(),
         "nv": verif::next_op_version(cas.as_arc()).map_or(0, |v| v as i64),
+        "casw": crate::shim::cas_writes(),
         "cas": ok, "casbad": bad, "casunk": unk, "junk": junk.len(), "stg": alpha::staging_count(root),
     })
 }
@@ -286,6 +287,7 @@ pub fn run_schedule<K: HKey>(
         st.open();
     }
     let cas = st.cas.clone().expect("open");
+    crate::shim::install_monitor(&root); // watch for in-place writes under cas/ by any thread (if the shim is loaded)
     let stats: Option<Arc<OrphanStats<K>>> = st.stats.take().map(Arc::new);
     // the order in which the clean-up routines will visit the orphans (directory order, not plant order)
     let orph_order: Vec<String> =
@@ -489,6 +491,7 @@ pub fn run_schedule<K: HKey>(
         st.close();
         drop(cas);
     }
+    crate::shim::uninstall();
     RunResult { events, choices, blocked }
 }
 
